@@ -537,6 +537,31 @@ def never_rule(ctx):
             tail = b
         ok = tail is not None and tail.get("k") == "path" and tail["segs"][-1] == "NotInPath"
         obs.append(ob("C11.never/%s" % v, ok, ctx.where(genf), "%s is not assignable; its arm returns %s" % (v, sir.expr_str(tail) if tail is not None else "?")))
+    # the access forms extend the path of their object whatever their own operand looks like: `a.b` adds a member slice, `a[e]`
+    # an indirect slice - no guard on the shape of `e` (an index computed by operators is as much a position as a plain one)
+    for v, slice_ in (("StaticMember", "StaticMember"), ("DynamicMember", "IndirectValue")):
+        if v not in table:
+            continue
+        arm, _case = table[v][0]
+        inpath_arms = []
+        for n in sir.walk(arm["body"]):
+            if n.get("k") == "match":
+                for a_ in n["arms"]:
+                    if re.search(r"\bInPath\b", sir.pat_str(a_["pat"])):
+                        inpath_arms.append(a_)
+            if n.get("k") == "if" and n["cond"].get("k") == "let" and re.search(r"\bInPath\b", sir.pat_str(n["cond"]["pat"])):
+                inpath_arms.append({"pat": n["cond"]["pat"], "guard": None, "body": n["then"]})
+        if not inpath_arms:
+            obs.append(ob("C11.never/extends/%s" % v, None, ctx.where(genf), "the arm does not inspect the object's path state in a form this rule reads"))
+            continue
+        guarded = [a_ for a_ in inpath_arms if a_.get("guard") is not None]
+        pushing = [a_ for a_ in inpath_arms if any(x.get("k") in ("call", "path") and (sir.call_path(x) if x.get("k") == "call" else x.get("s", "")).endswith("PathSlice::" + slice_) for x in sir.walk(a_["body"]))]
+        dropping = [a_ for a_ in inpath_arms if any(x.get("k") == "path" and x["segs"][-1] == "NotInPath" for x in sir.walk(a_["body"]))]
+        okx = not guarded and not dropping and len(pushing) == len(inpath_arms)
+        obs.append(ob("C11.never/extends/%s" % v, okx, ctx.where(genf),
+                      "an in-path object always yields an in-path access with a `%s` slice appended" % slice_ if okx else
+                      "the path of an in-path object is %s" % ("extended only under a condition on the operand (`if %s`)" % sir.expr_str(guarded[0]["guard"])[:60] if guarded else "given up (NotInPath) in some case" if dropping else "not extended by a `%s` slice in every case" % slice_),
+                      witness=None if okx else 'model:value="{{ list[idx + 1] }}" gets no l-value path: the write-back is lost'))
     # scope kinds
     ef = [f for f in tc.fns if f.base == "Element" and f.name == "to_proc_gen" and f.body]
     if ef:
